@@ -172,7 +172,14 @@ def run(ctx, rep):
                             cols = kwarg(v, 'columns')
                             if cols is not None and is_self_attr(cols, f.self_name, 'columns'):
                                 array_ok = True
-    if not series_test_seen:
+    xq = (tn.params[1:] or [None])[0]
+    converted = [a for a in walk_no_nested(tn.node) if isinstance(a, ast.Assign) and any(isinstance(t, ast.Name) and t.id == xq for t in a.targets)
+                 and isinstance(a.value, ast.Call) and any(isinstance(x, ast.Name) and x.id == xq for x in ast.walk(a.value))
+                 and not (prog.resolve(tn.module, a.value.func) or '').startswith(('pandas.', 'numpy.'))]      # a project helper, not a library constructor
+    if not series_test_seen and converted:
+        rep.undecided('D2.series', tn, converted[0], f'the query is converted by `{short(converted[0].value, 50)}`, in which no test for a Series was recognised: how a Series is '
+                      'labelled is not derived', construct='Series branch')
+    elif not series_test_seen:
         rep.bad('D2.series', tn, tn.node.name, 'no branch treats a Series query: its values are taken positionally, whatever its index order',
                 construct='Series branch')
     else:
